@@ -404,6 +404,7 @@ func genExtracted(b *strings.Builder, root, authp, httpio *pkg) {
 	w("Definition skeleton_handleRpcCall : list string := %s.", strList(positionalSkeleton(root, "rpcFunc", "handleRpcCall", []string{"json.", "Decode", "UseNumber", "reflect.New"})))
 	w("Definition skeleton_makeRpcFunc : list string := %s.", strList(positionalSkeleton(root, "client", "makeRpcFunc", []string{"NumIn", "NumOut", ".In", ".Out"})))
 	w("Definition decisions_makeRpcFunc : list string := %s.", strList(decisionOrder(root, "client", "makeRpcFunc")))
+	w("Definition method_name_assignments : list string := %s.", strList(assignsIn(root, "makeRpcFunc", []string{"name"})))
 	w("Definition decisions_register : list string := %s.", strList(decisionOrder(root, "handler", "register")))
 	w("Definition skeleton_processResponse : list string := %s.", strList(positionalSkeleton(root, "rpcFunc", "processResponse", []string{"reflect."})))
 	w("Definition skeleton_processError : list string := %s.", strList(positionalSkeleton(root, "rpcFunc", "processError", []string{"reflect."})))
@@ -416,6 +417,9 @@ func genExtracted(b *strings.Builder, root, authp, httpio *pkg) {
 	w("(* the redial goroutine installs the keepalive handlers on the connection it has just swapped in *)")
 	w("Definition redial_sets_up_pings_after_swap : bool := %s.", coqBool(assignBeforeCallDeep(root, "tryReconnect", "c.conn", "c.setupPings")))
 	w("(* keepalive *)")
+	w("(* the options that carry the keepalive parameters: every statement of the closure each one returns *)")
+	w("Definition option_bodies : list (string * list string) := [%s].", strings.Join([]string{
+		optionBody(root, "WithTimeout"), optionBody(root, "WithPingInterval"), optionBody(root, "WithServerPingInterval")}, "; "))
 	w("Definition nextMessage_resets_before_read : bool := %s.", coqBool(callBefore(root, "nextMessage", "c.resetReadDeadline", "c.conn.NextReader")))
 	w("Definition ping_handler_answers_pong : bool := %s.", coqBool(pingHandlerPongs(root)))
 	w("Definition default_client_ping_timeout : Z * Z := (%s, %s).", coqZ(defaultOf(root, "defaultConfig", "pingInterval")), coqZ(defaultOf(root, "defaultConfig", "timeout")))
@@ -474,6 +478,99 @@ func genExtracted(b *strings.Builder, root, authp, httpio *pkg) {
 		}
 	}
 	w("Definition reader_wait_closes : list (string * bool) := [%s].", strings.Join(sites, "; "))
+	w("(* package httpio: the rendezvous table: what happens inside each critical section of readersLk, and stores to the table outside of any *)")
+	secs, outside := lockSections(httpio, "ReaderParamDecoder", "readersLk", "readers")
+	var ss []string
+	for _, sc := range secs {
+		ss = append(ss, strList(sc))
+	}
+	w("Definition reader_rendezvous_sections : list (list string) := [%s].", strings.Join(ss, "; "))
+	w("Definition reader_table_stores_outside_lock : Z := %s.", coqZ(int64(outside)))
+}
+
+// lockSections: in function fn, for every <lk>.Lock()/RLock() ... <lk>.Unlock()/RUnlock() stretch inside one statement
+// list, the statements in between (ifs with their bodies); and the number of stores <table>[..] = .. outside any stretch
+func lockSections(p *pkg, fn, lk, table string) ([][]string, int) {
+	fd := p.anyFunc(fn)
+	if fd == nil {
+		die("%s not found", fn)
+	}
+	var full func(st ast.Stmt) string
+	full = func(st ast.Stmt) string {
+		if is, ok := st.(*ast.IfStmt); ok {
+			var in []string
+			for _, b := range is.Body.List {
+				in = append(in, full(b))
+			}
+			s := "if " + exprString2(is.Cond) + " { " + strings.Join(in, "; ") + " }"
+			if is.Else != nil {
+				s += " else ..."
+			}
+			return s
+		}
+		return stmtString(st)
+	}
+	isCall := func(st ast.Stmt, names ...string) bool {
+		es, ok := st.(*ast.ExprStmt)
+		if !ok {
+			return false
+		}
+		ce, ok := es.X.(*ast.CallExpr)
+		if !ok {
+			return false
+		}
+		f := exprString(ce.Fun)
+		for _, n := range names {
+			if f == lk+"."+n {
+				return true
+			}
+		}
+		return false
+	}
+	var secs [][]string
+	inside := map[ast.Stmt]bool{}
+	ast.Inspect(fd.Body, func(n ast.Node) bool {
+		bs, ok := n.(*ast.BlockStmt)
+		if !ok {
+			return true
+		}
+		var cur []string
+		in := false
+		for _, st := range bs.List {
+			switch {
+			case isCall(st, "Lock", "RLock"):
+				in, cur = true, []string{}
+			case isCall(st, "Unlock", "RUnlock"):
+				if in {
+					secs = append(secs, cur)
+				}
+				in = false
+			case in:
+				cur = append(cur, full(st))
+				ast.Inspect(st, func(m ast.Node) bool {
+					if s2, ok := m.(ast.Stmt); ok {
+						inside[s2] = true
+					}
+					return true
+				})
+			}
+		}
+		return true
+	})
+	outside := 0
+	ast.Inspect(fd.Body, func(n ast.Node) bool {
+		as, ok := n.(*ast.AssignStmt)
+		if !ok {
+			return true
+		}
+		for _, l := range as.Lhs {
+			if ix, ok := l.(*ast.IndexExpr); ok && exprString(ix.X) == table && !inside[as] {
+				outside++
+			}
+		}
+		return true
+	})
+	return secs, outside
 }
 
 // indexGuarded: in wsConn.<fn>, every constant index expression <v>[i] occurs (in source order) after a top-level
@@ -1167,4 +1264,55 @@ func reverseFormatterReadPerConnection(p *pkg) bool {
 		return true
 	})
 	return ok && !outside
+}
+
+// optionBody: the statements (textual, in order) of the function literal returned by option constructor fn
+func optionBody(p *pkg, fn string) string {
+	fd := p.funcDecl("", fn)
+	if fd == nil {
+		die("%s not found", fn)
+	}
+	var stmts []string
+	found := false
+	for _, st := range fd.Body.List {
+		rs, ok := st.(*ast.ReturnStmt)
+		if !ok || len(rs.Results) != 1 {
+			stmts = append(stmts, "outer: "+stmtString(st))
+			continue
+		}
+		fl, ok := rs.Results[0].(*ast.FuncLit)
+		if !ok {
+			stmts = append(stmts, "outer: "+stmtString(st))
+			continue
+		}
+		found = true
+		for _, in := range fl.Body.List {
+			stmts = append(stmts, stmtString(in))
+		}
+	}
+	if !found {
+		die("%s does not return a function literal", fn)
+	}
+	return fmt.Sprintf("(%s, %s)", coqStr(fn), strList(stmts))
+}
+
+func stmtString(st ast.Stmt) string {
+	switch x := st.(type) {
+	case *ast.AssignStmt:
+		var l, r []string
+		for _, e := range x.Lhs {
+			l = append(l, exprString2(e))
+		}
+		for _, e := range x.Rhs {
+			r = append(r, exprString2(e))
+		}
+		return strings.Join(l, ", ") + " " + x.Tok.String() + " " + strings.Join(r, ", ")
+	case *ast.ExprStmt:
+		return exprString2(x.X)
+	case *ast.IfStmt:
+		return "if " + exprString2(x.Cond) + " {...}"
+	case *ast.ReturnStmt:
+		return "return"
+	}
+	return fmt.Sprintf("%T", st)
 }
